@@ -1,7 +1,7 @@
 (* C11 — COSE_Sign verification is positional and all-or-nothing.
    Statements only (copied from coq/theories by bin/mkprops); each proof is `exact <lemma>`. *)
 From Coq Require Import Ascii String ZArith List Bool Permutation.
-From GoCose Require Import Bytes Cbor Res GoVal Obs Ecdsa Fx Headers Enc Dec Msg HashEnv Key SigVer Run FlowProofs.
+From GoCose Require Import Bytes Cbor Res GoVal Obs Ecdsa Fx Headers Enc Dec Msg HashEnv Key SigVer Run FlowProofs AskedOnce.
 From GoCose.Gen Require Import Generated.
 Import ListNotations.
 Open Scope Z_scope.
@@ -55,3 +55,44 @@ Theorem C11_signmsg_no_signatures_errors :
   sm_sigs m = [] -> marshal_signmsg m = Rej ENoSigs.
 Proof. exact signmsg_no_signatures_errors. Qed.
 Print Assumptions C11_signmsg_no_signatures_errors.
+
+(* never more questions than signatures, and every question put to a verifier is about the signature at that verifier's own position *)
+Theorem C11_signmsg_verify_calls :
+  forall m ext vfs,
+  (length (snd (signmsg_verify m ext vfs)) <= length (sm_sigs m))%nat /\
+  forall c, In c (snd (signmsg_verify m ext vfs)) ->
+    exists bp i s vf, marshal_protected (sm_h m) = Acc bp /\
+      nth_error (sm_sigs m) i = Some (Some s) /\ nth_error vfs i = Some vf /\
+      In c (snd (signature_verify s vf bp (sm_payload m) ext)).
+Proof. exact signmsg_verify_calls. Qed.
+Print Assumptions C11_signmsg_verify_calls.
+
+(* after the first position that does not verify nobody else is asked *)
+Theorem C11_verify_loop_stops_at_refusal :
+  forall bp pl ext pre vpre s vf post vpost,
+  Forall2 (sig_ok bp pl ext) pre vpre ->
+  fst (signature_verify s vf bp pl ext) <> Acc tt ->
+  snd (verify_loop (pre ++ Some s :: post) (vpre ++ vf :: vpost) bp pl ext) =
+  snd (verify_loop pre vpre bp pl ext) ++ snd (signature_verify s vf bp pl ext).
+Proof. exact verify_loop_stops_at_refusal. Qed.
+Print Assumptions C11_verify_loop_stops_at_refusal.
+
+(* a position is accepted only by its own verifier's answer about its own structure *)
+Theorem C11_signature_verify_accepts_only_own :
+  forall s vf bp pl ext,
+  fst (signature_verify s vf bp pl ext) = Acc tt ->
+  exists t, tbs_signature (sg_h s) bp pl ext = Acc t /\ vf_run vf t (sg_sig s) = Acc tt.
+Proof. exact signature_verify_accepts_only_own. Qed.
+Print Assumptions C11_signature_verify_accepts_only_own.
+
+Theorem C11_asked_once_example :
+  let vf_bad := mkVerifier (-7) (fun _ _ => Rej EVerification) in
+  let vf_ok := mkVerifier (-7) (fun _ _ => Acc tt) in
+  let h := mkH None (Some [GInt KInt64 1; GInt KAlg (-7)]) None None in
+  let s1 := mkSig h (Some [1]) in
+  let s2 := mkSig h (Some [2]) in
+  let r := verify_loop [Some s1; Some s2] [vf_bad; vf_ok] [64] (Some [112]) None in
+  fst r = Rej EVerification /\ length (snd r) = 1%nat /\
+  snd r = snd (signature_verify s1 vf_bad [64] (Some [112]) None).
+Proof. exact asked_once_example. Qed.
+Print Assumptions C11_asked_once_example.
